@@ -168,6 +168,20 @@ def session_grid():
         yield ssh_case(verify=False, profile=prof, opens=opens, subs=subs, hello_ok=hello, kex_ok=kex)
         yield ssh_case(verify=True, kh=[('hostport', 'E1')], profile=prof, opens=opens, subs=subs, hello_ok=hello, kex_ok=kex)
 
+def random_ssh_cases(rng, n):
+    """fully random configurations and verdict streams (seeded by VERIF_SEED): known_hosts layouts of up to 4 lines"""
+    profs = profiles()
+    for _ in range(n):
+        kh = None if rng.random() < 0.1 else [(rng.choice(['host', 'hostport', 'other']), rng.choice(['E1', 'E2', 'R1'])) for _ in range(rng.randint(0, 4))]
+        kf = rng.choice(KEYFILES); ag = rng.choice(AGENTS); dk = rng.choice(DEFAULTS); pw = rng.random() < 0.6
+        n_att = n_attempts(kf, ag, dk, pw)
+        auths = [rng.random() < 0.3 for _ in range(rng.randint(0, n_att + 1))]
+        ucb = rng.random() < 0.5
+        yield ssh_case(verify=rng.random() < 0.8, kh=kh, pin=rng.choice([None, None, 'bad', 'E1', 'E2', 'R1']), user_cb=ucb, cb_verdict=ucb and rng.random() < 0.5,
+                       profile=rng.choice(profs), key_files=kf, allow_agent=ag[0], agent_keys=ag[1], look_for_keys=dk[0], default_keys=dk[1],
+                       password=pw, server_key=rng.choice(['E1', 'E1', 'E2', 'R1']), kex_ok=rng.random() < 0.95, auths=auths,
+                       opens=[rng.random() < 0.9 for _ in range(2)], subs=[rng.random() < 0.6 for _ in range(2)], hello_ok=rng.random() < 0.9)
+
 def ssh_cases(ctx):
     profs = profiles()
     few = ['default', 'iosxe', 'junos']
@@ -185,6 +199,8 @@ def ssh_cases(ctx):
                  dict(verify=True, user_cb=True, cb_verdict=True), dict(verify=True, profile='csr'), dict(verify=True, user_cb=True, cb_verdict=False)]
     yield from cred_grid(bases)
     yield from session_grid()
+    if getattr(ctx, 'rng', None) is not None:
+        yield from random_ssh_cases(ctx.rng, 3000 if ctx.tier == 'quick' else 40000)
 
 def check_ssh(ctx, c, mo):
     raw, code, exn = H().run_ssh_fake(c)
